@@ -571,6 +571,27 @@ let check_search line f =
        add "spec:move seen through the stable ABI (EvaluatedMove) = move returned" mv api_mv;
        add "spec:score seen through the stable ABI = score returned" sc api_sc;
        cmp_line "SR" line (List.rev !checks) end)
+  | ["SH"; xf; k; reps; mv; sc; depth] ->
+    (match parse_model xf with
+     | None -> cmp_line "SH" line [("model:position-rejected-by-model-parser", "accepted", "rejected")]
+     | Some b ->
+       if mv = "TRAP" then cmp_line "SH" line [("spec:search never panics", "no-TRAP", "TRAP")] else begin
+       let kk = int_of_string k in
+       let legal = api_spec_legal_moves (api_abs b) in
+       let (((mmv, msc), mdepth), mfuel) =
+         api_search_tf (n_of_int kk) (api_nat_of_N (n_of_int (int_of_string reps))) (api_nat_of_N (n_of_int (min (kk + 2) 70001))) (api_nat_of_N (n_of_int 48)) b in
+       let checks = ref [] in
+       let add w e g = checks := (w, e, g) :: !checks in
+       if mv <> "-" then
+         add "spec:returned move is legal in the searched position" "1" (b01 (List.exists (fun y -> move_key y = move_key (move_of_s mv)) legal));
+       if legal = [] then add "spec:no legal move => no move returned" "-" mv;
+       if mfuel then add "model:fuel exhausted in the model" "0" "1" else begin
+         add "model:move" (match mmv with Some m -> move_s m | None -> "-") mv;
+         add "model:score" (string_of_score msc) sc;
+         add "model:max_depth" (string_of_int (int_of_n mdepth)) depth;
+         if legal <> [] && mmv <> None then add "spec:move returned when the first pass completed" "some" (if mv = "-" then "-" else "some")
+       end;
+       cmp_line "SH" line (List.rev !checks) end)
   | ["MR"; xf; mf; a; m; kmax; fa; fm] ->
     if a = "TRAP" then cmp_line "MR" line [("spec:search never panics", "no-TRAP", "TRAP")] else
     (match parse_model xf, parse_model mf with
@@ -687,7 +708,7 @@ let dispatch line =
   | ("BK" | "BKS") :: _ -> check_book line f
   | "WK" :: _ -> bump "WK" 0
   | "GI" :: _ -> check_gi line f
-  | ("SR" | "MR") :: _ -> check_search line f
+  | ("SR" | "SH" | "MR") :: _ -> check_search line f
   | "BT" :: _ -> check_bot line f
   | "DIST" :: _ -> ()
   | k :: _ -> bump ("UNKNOWN:" ^ k) 1; diff "UNKNOWN" k "" line
